@@ -201,6 +201,20 @@ prop('C07', 'other',
      'by the classical convergence theorem, which is not machine-checked; matrix-exponential benchmark on stock cases; other machine models.',
      'symbolic execution of the real residual assembly (pysym) + z3 identity check against a textbook oracle', 'DESIGN.md 3/C07')
 
+prop('C05', 'other',
+     'PARTIAL (per model, devices in service). For every dynamically initialised model of the tree the real initialisation order (init_seq '
+     'of the generated module; declared initialisers, services, equations through an independent parser; limiter/comparison flags; '
+     'iterative groups as symbols constrained by their v_iter equations) is executed over z3 terms, and z3 decides for ALL parameter and '
+     'power-flow values that every differential right-hand side and every algebraic mismatch of the model vanishes at the initial '
+     'point (829 of 943 obligations over 73 models, incl. GENCLS with its complex log/exp chain and most of GENROU, all TGOV/IEEEG/HYGOV '
+     'governors, DC/AC/ST exciters, PSS, renewable and DG models). A refutation is replayed numerically on the generated code (pycode) and '
+     'reported only if the residual reproduces. test_init verdict <=> residual is in C17.',
+     'NOT decided: obligations needing a premise about data (gate selection in HVG/LVG blocks, turbine power fractions, reference '
+     'parameters) or about another device beyond the generic link facts -- listed per variable in the evidence as undecided; offline '
+     'devices; bus-injection hand-over and gammap/gammaq split at system level (C07 has the SMIB instance); drift of an undisturbed '
+     'run beyond the first step; GENROU saturation rows in the quick tier.',
+     'symbolic execution of the declared initialisation sequence (eqsmt) + z3 with instantiated trig/exp/phasor lemmas', 'DESIGN.md 3/C05')
+
 ORDER = ['C%02d' % i for i in range(1, 21)]
 checks, na = [], []
 for pid in ORDER:
